@@ -35,6 +35,9 @@ def get_component_full_name( c_rtype ):
       if is_bitstruct_class(obj):
         return get_rtlir_dtype( obj() ).get_name()
       return obj.__name__
+    if isinstance(obj, (set, frozenset)):
+      # The iteration order of a set depends on PYTHONHASHSEED
+      return '{' + ', '.join( sorted( get_string(x) for x in obj ) ) + '}'
     return str( obj )
 
   comp_name = c_rtype.get_name()
